@@ -5,7 +5,7 @@ from .. import terms as T
 from .C05 import common_type
 from .C08 import runit
 
-REPS10 = F.INT_REPS + ["float", "double"]
+REPS10 = F.INT_REPS + ["float", "double", "long long"]      # long long: a distinct type with int64_t's arithmetic (type-identity dispatch)
 
 
 def expected_permit(r1, r2, ratio):
@@ -64,7 +64,7 @@ class C06(F.Check):
                     n += 1
                     u1, u2 = runit(ratio), "Meters"
                     exp = expected_permit(r1, r2, ratio)
-                    tag = "%s_%s_%d" % (r1.replace("_t", ""), r2.replace("_t", ""), n)
+                    tag = "%s_%s_%d" % (r1.replace("_t", "").replace(" ", ""), r2.replace("_t", "").replace(" ", ""), n)
                     key = {"R1": r1, "R2": r2, "ratio": str(ratio), "expected": exp}
                     q1, q2 = "Quantity<%s, %s>" % (u1, r1), "Quantity<%s, %s>" % (u2, r2)
                     k = F.Kernel("c06_permit_%s" % tag, "bool", [], "return std::is_convertible<%s, %s>::value;" % (q1, q2),
@@ -90,7 +90,7 @@ class C06(F.Check):
                     continue
                 exp = expected_permit(r, r, ratio)
                 u1 = runit(ratio)
-                tagp = "%s_%d" % (r.replace("_t", ""), j)
+                tagp = "%s_%d" % (r.replace("_t", "").replace(" ", ""), j)
                 key = {"R": r, "ratio": str(ratio), "expected_to_compile": exp}
                 # a mixed-unit comparison converts BOTH operands to the common unit (1/q meters for ratio p/q): factors p and q
                 exp_cmp = expected_permit(r, r, Fraction(ratio.numerator)) and expected_permit(r, r, Fraction(ratio.denominator))
